@@ -35,7 +35,18 @@ def _fn(kind):
 
 
 def _maxfor(kind, k, n, pbits):
-    return rr.max_clauses(k, n, pbits) if kind == 'cnf' else rr.max_parities(k, n, pbits)
+    """Number of clauses / parities compatible with the planted set: by brute force up to
+    12 variables, by counting per class of interchangeable variables beyond (the two
+    computations are compared with each other up to 7 variables)."""
+    pbits = tuple(pbits)
+    if n <= 12:
+        mx = rr.max_clauses(k, n, pbits) if kind == 'cnf' else rr.max_parities(k, n, pbits)
+        if n > 7:
+            return mx
+    other = rr.max_clauses_by_classes(k, n, pbits) if kind == 'cnf' else rr.max_parities_by_classes(k, n, pbits)
+    if n <= 7:
+        assert mx == other, (kind, k, n, pbits, mx, other)
+    return other
 
 
 def _container(kind, seq):
@@ -74,15 +85,23 @@ def check_formula_shape(kind, k, n, m, nvars, clauses, pbits, what):
         if pbits and nempty:
             raise Violation("{}: the parity 0=1 (empty clause) is falsified by the planted "
                             "assignments".format(what))
-        sol = 0 if nempty else tt.full(n)
     else:
         for S, b in parities:
             for a in pbits:
                 if rr.parity_value(S, a) != b:
                     raise Violation("{}: parity xor{}={} is falsified by the planted assignment {}".format(
                         what, list(S), b, rr.bits_assignment(n, a)))
-        sol = rr.gf2_solution_mask(n, parities)
+    # the same statement on the clauses themselves, without the decoder (any n)
+    for a in pbits:
+        for c in clauses:
+            if not rr.clause_true(c, a):
+                raise Violation("{}: clause {} is falsified by the planted assignment {}".format(
+                    what, list(c), rr.bits_assignment(n, a)))
     if n <= 12:
+        if parities is None:
+            sol = 0 if len(clauses) else tt.full(n)
+        else:
+            sol = rr.gf2_solution_mask(n, parities)
         models = tt.cnf_tt(n, clauses)
         if models != sol:
             a = tt.first_row(models ^ sol)
